@@ -24,10 +24,7 @@ inductive Err | runtime | attribute | typeErr | badTable | unmodelled
   deriving DecidableEq, Repr
 
 inductive Res (α : Type) | ok (a : α) | err (e : Err) | fuel
-  deriving Repr
-
-instance {α} [DecidableEq α] : DecidableEq (Res α) := fun a b => by
-  cases a <;> cases b <;> simp <;> exact inferInstance
+  deriving Repr, DecidableEq
 
 def Res.bind {α β} (x : Res α) (k : α → Res β) : Res β :=
   match x with
